@@ -22,7 +22,7 @@ tests=false; summary=""
 if $c1; then
   timeout 3000 cargo test --release --offline >"$O/tests$K.log" 2>&1
   summary=$(grep "^test result" "$O/tests$K.log" | tail -1 | sed 's/"//g')
-  failed=$(grep -E "^test .* FAILED" "$O/tests$K.log" | grep -v "chess::tests::fen_startpos" | wc -l)
+  failed=$(grep -E "^test [^ ]+ \.\.\. FAILED" "$O/tests$K.log" | grep -v "chess::tests::fen_startpos" | wc -l)
   passed=$(grep -E "^test .* ok$" "$O/tests$K.log" | wc -l)
   [ "$failed" = 0 ] && [ "$passed" -ge 45 ] && tests=true
   cargo build -q --release --offline >/dev/null 2>&1
